@@ -98,6 +98,9 @@ type tcpPacketConn struct {
 	closedChan chan struct{}
 	closeOnce  sync.Once
 	aliveTimer *time.Timer
+	// aliveCleared and expired (guarded by mu) decide the race between ClearAliveTimer
+	// and the alive timer: whichever comes first wins.
+	aliveCleared, expired bool
 
 	// refs counts outstanding sharedPacketConn wrappers handed out by the mux.
 	refs atomic.Int32
@@ -132,6 +135,16 @@ func newTCPPacketConn(params tcpPacketParams) *tcpPacketConn {
 
 	if params.AliveDuration > 0 {
 		packet.aliveTimer = time.AfterFunc(params.AliveDuration, func() {
+			packet.mu.Lock()
+			if packet.aliveCleared {
+				// fired, but ClearAliveTimer came first: the conn has an owner now
+				packet.mu.Unlock()
+
+				return
+			}
+			packet.expired = true
+			packet.mu.Unlock()
+
 			packet.params.Logger.Warn("close tcp packet conn by alive timeout")
 			_ = packet.Close()
 		})
@@ -140,12 +153,21 @@ func newTCPPacketConn(params tcpPacketParams) *tcpPacketConn {
 	return packet
 }
 
-func (t *tcpPacketConn) ClearAliveTimer() {
+// ClearAliveTimer stops the alive timer. It returns false if the timer has
+// already expired the conn, which is being closed and must not be handed out.
+func (t *tcpPacketConn) ClearAliveTimer() bool {
 	t.mu.Lock()
+	defer t.mu.Unlock()
+
+	if t.expired {
+		return false
+	}
+	t.aliveCleared = true
 	if t.aliveTimer != nil {
 		t.aliveTimer.Stop()
 	}
-	t.mu.Unlock()
+
+	return true
 }
 
 func (t *tcpPacketConn) AddConn(conn net.Conn, firstPacketData []byte) error {
